@@ -24,7 +24,7 @@ Record probe := mkProbe {
   p_exact_ok : bool;                        (* get_exact agrees for every entry read *)
   p_listed : bool }.                        (* list_namespaces names the document *)
 
-Record case := mkCase {
+Record hcase := mkCase {
   c_ns : N;
   c_ops : list cop;
   c_boundaries : list (list entry);         (* live content after 0, 1, 2, ... complete operations *)
@@ -91,7 +91,7 @@ Fixpoint last_flush (ops : list cop) (i : nat) (pos : nat) (acc : nat) : nat :=
 
 Definition heads_of_content (l : list entry) : list (N * N) := heads_spec l.
 
-Definition check (c : case) : N :=
+Definition check_history (c : hcase) : N :=
   let ns := c_ns c in
   (* the store after import + open + flush: the namespace row is durable *)
   let T0 := set_namespaces empty_tables [(ns, Some 0)] in
@@ -114,3 +114,17 @@ Definition check (c : case) : N :=
               && set_eqb (p_bykey p) (p_content p)
               && list_eqb nn_eqb (p_heads p) (heads_of_content (p_content p))) (c_probes c) in
   bit (negb m1) 1 + bit (negb m2) 2.
+
+(** through the store handle: what the actor has acknowledged before an acknowledged [flush_store] is in
+    the file when the process is killed right afterwards (the file is copied after the flush returned,
+    before anything else touches the store; [expected] is what the live store holds at that moment) *)
+Inductive case :=
+  | Hist (c : hcase)
+  | ActorFlush (opened : bool) (expected recovered : list entry).
+
+Definition check (c : case) : N :=
+  match c with
+  | Hist c => check_history c
+  | ActorFlush opened expected recovered =>
+      bit (negb (opened && set_eqb expected recovered)) 2
+  end.
